@@ -220,9 +220,12 @@ class Obj:
         self.args = tuple(args)
         self.kwargs = dict(kwargs or {})
         Obj._n += 1
+        self.named = name is not None
         self.name = name or f"{cls.rsplit('.', 1)[-1]}#{Obj._n}"
 
     def __repr__(self):
+        if self.named:
+            return f"`{self.name}`"
         a = ", ".join([vkey(x) for x in self.args] + [f"{k}={vkey(v)}" for k, v in self.kwargs.items()])
         return f"{self.cls.rsplit('.', 1)[-1]}({a})"
 
